@@ -6,6 +6,7 @@ import WP.Model.DynArray
 import WP.Model.PinoOffset
 import WP.Model.Sdk
 import WP.Model.TransferFee
+import WP.Gen.AnchorSpecs
 /-
   Line-protocol driver: one operation per line on stdin, one canonical result line on stdout.
   `ok <fields…>` | `err <ErrorName>` | `bad-op`.  See DESIGN.md Appendix B.
@@ -241,6 +242,44 @@ def sdkafLine (t : List String) : Option String :=
     | .error e => pure ("err " ++ e.name)
     | .ok v3 => pure s!"ok {v3.lastRefUpdateTs} {v3.lastMajorSwapTs} {v3.volRef} {v3.groupIndexRef} {v3.volAcc}"
 
+/-- `xadm`: one admin instruction through the account-validation layer (C04 / C15 / C19):
+    xadm <AccountsStruct> <nf> (<key> <signer>)^nf <na> <value>^na <bound…>
+    the environment is what the harness built and read back from the real accounts; the answer is
+    `accepts` on the REGENERATED table (`acceptsB_iff`) ∧ the setter's bound -/
+def xadmBound (t : List String) : Option Bool :=
+  match t with
+  | ["none"] => some true
+  | ["fee", v] => do pure (decide ((← v.toNat?) ≤ Gen.MAX_FEE_RATE))
+  | ["proto", v] => do pure (decide ((← v.toNat?) ≤ Gen.MAX_PROTOCOL_FEE_RATE))
+  | ["idx", v] => do pure (decide ((← v.toNat?) < 3))
+  | "afc" :: rest => do
+    let n ← natArgs rest
+    match n with
+    | [ts, fp, dp, rf, cf, mx, gs, mj] =>
+      pure (validateConstants ts { filterPeriod := fp, decayPeriod := dp, reductionFactor := rf, controlFactor := cf, maxVolAcc := mx,
+                                   groupSize := gs, majorSwapThresholdTicks := mj })
+    | _ => none
+  | _ => none
+
+def xadmLine (t0 : List String) : Option String := do
+  let t := t0.takeWhile (· ≠ "#")
+  let name ← t[0]?
+  let spec ← findSpec Gen.anchorSpecs name
+  let nf ← (← t[1]?).toNat?
+  let ks := (t.drop 2).take (2 * nf)
+  let rec pairs (l : List String) : Option (List (Nat × Bool)) :=
+    match l with
+    | [] => some []
+    | [_] => none
+    | k :: s :: r => do pure (((← k.toNat?), (← b01 s)) :: (← pairs r))
+  let keys ← pairs ks
+  let rest := t.drop (2 + 2 * nf)
+  let na ← (← rest[0]?).toNat?
+  let vals ← natArgs ((rest.drop 1).take na)
+  let bound ← xadmBound (rest.drop (1 + na))
+  let env ← envOfLine spec keys vals
+  pure (if acceptsB spec env && bound then "ok" else "err")
+
 /-- `calculate_modify_tick_array`: (size change in ticks, rent units moved position → array) -/
 def tickArrayUpdate (isVar : Bool) (posLiq updLiq : Nat) (tickInit updInit : Bool) : Int × Int :=
   if !isVar then (0, 0)
@@ -429,6 +468,9 @@ partial def loop (h : IO.FS.Stream) (out : IO.FS.Stream) (hist : Option HistStat
     loop h out hist bm dyn snap
   | "afm" :: rest =>
     out.putStrLn ((afmLine rest).getD "bad-op")
+    loop h out hist bm dyn snap
+  | "xadm" :: rest =>
+    out.putStrLn ((xadmLine rest).getD "bad-op")
     loop h out hist bm dyn snap
   | "sdkaf" :: rest =>
     out.putStrLn ((sdkafLine rest).getD "bad-op")
